@@ -192,6 +192,25 @@ def check_estimate(ctx, case):
                 ctx.fail('elemental-G', '[%s] GoRT(T, True) - GoRT(T) = %r, expected %r' % (label, G1 - G0, elemental))
         else:
             ctx.event('elemental:element-not-tabulated')
+    # the estimate belongs to ITS molecule: decomposing another molecule with the same library object afterwards does not
+    # change what 'relative to the elements' means for an estimate that already exists
+    if elemental is not None and Ts:
+        other = 'CC' if formula_counts(smi) != formula_counts('CC') else 'CCO'
+        T = Ts[0]
+        before = (quiet(est.get_SoR, T, S_elements=True), quiet(est.get_GoRT, T, S_elements=True))
+        try:
+            quiet(lib.GetDescriptors, other)
+        except Exception:
+            ctx.event('later-decomposition:other-molecule-not-decomposable')
+        else:
+            after = (quiet(est.get_SoR, T, S_elements=True), quiet(est.get_GoRT, T, S_elements=True))
+            ctx.count()
+            ctx.event('later-decomposition:checked')
+            if before != after:
+                ctx.fail('elemental-reference-follows-a-later-decomposition', '[%s] (SoR, GoRT)(%r, elements) = %r; after the library decomposed %r: %r'
+                         % (label, T, before, other, after))
+            # leave the library as the following cases expect it: the molecule itself decomposed last
+            quiet(lib.GetDescriptors, smi)
 
 
 def enum_groups(tier):
